@@ -45,7 +45,8 @@ ASSUMPTIONS = [
     "DLL and pure-Python drivers only (no OpenCL/CUDA in the image)",
 ]
 QUICK_MODELS = ["sphere", "core_shell_sphere", "cylinder", "core_multi_shell", "parallelepiped", "lamellar_hg",
-                "multilayer_vesicle", "fractal", "core_shell_ellipsoid"]
+                "multilayer_vesicle", "fractal", "core_shell_ellipsoid", "onion", "spherical_sld"]
+NSHELL = 3          # used length of vector parameters outside the "allmag" dimension (which uses the maximum)
 PY_MODELS = ["adsorbed_layer", "teubner_strey"]
 # one representative per structural class of parameter table (thorough tier explores these one level deeper)
 D4_MODELS = ["sphere", "core_shell_sphere", "cylinder", "core_multi_shell", "parallelepiped", "lamellar_hg", "vesicle",
@@ -54,11 +55,11 @@ D4_MODELS = ["sphere", "core_shell_sphere", "cylinder", "core_multi_shell", "par
 SLOW_MODELS = ["pringle"]      # numerical double integral per call (~0.1 s per single-q evaluation block)
 BOUNDS = {
     "quick": {"models": QUICK_MODELS + PY_MODELS, "D": 3, "python_models_D": 1,
-              "q_points": 9, "vector_sld_elements": "first two (all in the allmag dimension)"},
+              "q_points": 9, "vector_sld_elements": "first, second and last used (n=3) of each vector SLD; all 10 in the allmag dimension"},
     "thorough": {"models": "all 47 models with SLD parameters", "D": 3, "D4_models": D4_MODELS, "python_models_D": 1,
                  "D2_models": SLOW_MODELS,
                  "D_note": "D=4 models with >4 active SLD dimensions: all D=4 combinations that involve at most 2 SLD dimensions",
-                 "q_points": 9, "vector_sld_elements": "first two (all in the allmag dimension)"},
+                 "q_points": 9, "vector_sld_elements": "first, second and last used (n=3) of each vector SLD; all 10 in the allmag dimension"},
 }
 CASE_TIMEOUT = 300
 
@@ -79,17 +80,23 @@ def qpoints(ctx):
 
 
 def sld_names(info):
-    """SLD call parameters in call order; vector SLDs contribute elements 1 and 2"""
+    """SLD call parameters in call order; EACH vector SLD contributes its first, second and last used element
+    (the vector length is set to NSHELL = 3, so these are elements 1, 2, 3 of every vector SLD separately)"""
     out = []
     for p in info.parameters.call_parameters:
         if p.type != "sld":
             continue
         stem = p.name.rstrip("0123456789")
         if stem != p.name and any(k.length > 1 and k.id == stem for k in info.parameters.kernel_parameters):
-            if int(p.name[len(stem):]) > 2:
+            if int(p.name[len(stem):]) > NSHELL:
                 continue
         out.append(p.name)
     return out
+
+
+def vector_sld_stems(info):
+    """ids of the vector-valued SLD parameters in table order"""
+    return [k.id for k in info.parameters.kernel_parameters if k.length > 1 and k.type == "sld"]
 
 
 def all_sld_names(info):
@@ -186,7 +193,7 @@ def _base(info, allmag):
             continue
         pars[p.name] = p.default
     for c, hi in ctl.items():
-        pars[c] = float(hi) if allmag else 2.0
+        pars[c] = float(hi) if allmag else float(min(NSHELL, hi))
     # a generic view so that orientation matters
     for nm, v in (("theta", 50.0), ("phi", 25.0), ("psi", 15.0)):
         if nm in pars:
@@ -344,6 +351,13 @@ def run_case(case, ctx):
         br.append("oblique-polarisation")
     if nmag >= 2:
         br.append("multi-magnetic-sld")
+    vec = vector_sld_stems(info)
+    if len(vec) >= 2:
+        later = [s_ for s_, v in mvec.items() if v[0] != 0.0 and s_.rstrip("0123456789") in vec[1:]]
+        if later:
+            br.append("magnetic-element-of-later-vector-sld")
+            if any(int(s_[len(s_.rstrip("0123456789")):]) == NSHELL for s_ in later) and not allmag:
+                br.append("magnetic-last-element-of-later-vector-sld")
     if w_sf > 0:
         br.append("spin-flip-channel")
     if 0 < min(w for w in (w_dd, w_du, w_ud, w_uu) if w > 0) < 1e-6:
@@ -381,3 +395,6 @@ def finish(ctx, report):
     report.require("orientation-dispersity", 20, "orientation dispersity")
     report.require("all-slds-magnetic", 5, "every SLD magnetic (vector SLDs at full length)")
     report.require("q0-finite", 50, "q = 0 present")
+    report.require("magnetic-element-of-later-vector-sld", 50,
+                   "magnetic element of a vector SLD that follows another vector parameter (onion sld_out)")
+    report.require("magnetic-last-element-of-later-vector-sld", 10, "... its last used element")
